@@ -177,6 +177,27 @@ Proof.
   exists true. split; [reflexivity|]. tauto.
 Qed.
 
+(* all four classes at once: the documented conjunction of each *)
+Definition tuple_rings (q : qatom) : bool :=
+  match q with QElem _ _ x | QAny x | QList _ x => negb (x_rings_set x) | QMetal _ _ => true end.
+Definition atom_spec (q : qatom) (a : latom) : Prop :=
+  match q with
+  | QElem num iso x => num = la_num a /\ x_chg x = la_chg a /\ x_rad x = la_rad a /\ iso_ok iso (la_iso a) /\ tail_spec x a
+  | QAny x => x_chg x = la_chg a /\ x_rad x = la_rad a /\ tail_spec x a
+  | QList nums x => In (la_num a) nums /\ x_chg x = la_chg a /\ x_rad x = la_rad a /\ tail_spec x a
+  | QMetal nb hyb => non_metal (la_num a) = false /\ tuple_ok nb (la_nb a) /\ tuple_ok hyb (la_hyb a)
+  end.
+Theorem match_spec q a : tuple_rings q = true ->
+  exists b, match_atom q a = Ok b /\ (b = true <-> atom_spec q a).
+Proof.
+  destruct q as [num iso x|x|nums x|nb hyb]; cbn [tuple_rings match_atom atom_spec]; intros H;
+    try apply negb_true_iff in H.
+  - apply match_q_spec; exact H.
+  - apply match_any_spec; exact H.
+  - apply match_list_spec; exact H.
+  - apply match_metal_spec.
+Qed.
+
 (* the documented exclusion list of AnyMetal, as the element tables define it (regenerated every run) *)
 Definition documented_non_metals : list Z :=
   [1; 2; 5; 6; 7; 8; 9; 10; 14; 15; 16; 17; 18; 32; 33; 34; 35; 36; 51; 52; 53; 54; 85; 86; 118].
@@ -216,36 +237,6 @@ Qed.
 Lemma zmem_head v r : zmem v (v :: r) = true.
 Proof. cbn. rewrite Z.eqb_refl. reflexivity. Qed.
 
-(* holds whenever ring sizes are not requested or the atom is not in a ring ... *)
-Theorem from_atom_matches_self_partial a f_nb f_hyb f_het f_h f_rings :
-  f_rings = false \/ la_rings a = [] ->
-  match_atom (from_atom a f_nb f_hyb f_het f_h f_rings) a = Ok true.
-Proof.
-  intros H. unfold from_atom, match_atom, match_q. cbn [x_chg x_rad].
-  rewrite !Z.eqb_refl, eqb_reflx. cbn [negb].
-  assert (I : iso_truthy (la_iso a) && negb (option_eqb Z.eqb (la_iso a) (la_iso a)) = false).
-  { apply iso_test. right. right. reflexivity. }
-  rewrite I. unfold match_tail, ring_step. cbn [x_nb x_hyb x_h x_het x_rings x_rings_set].
-  assert (R : (if f_rings then la_rings a else []) = []) by (destruct H as [-> | ->]; [reflexivity | destruct f_rings; reflexivity]).
-  rewrite R.
-  destruct f_nb; cbn [nonempty andb]; [rewrite zmem_head; cbn [negb andb]|];
-  (destruct f_hyb; cbn [nonempty andb]; [rewrite zmem_head; cbn [negb andb]|]);
-  (destruct f_h; [destruct (la_h a) as [h|]; cbn [nonempty andb opt_mem]; [rewrite zmem_head; cbn [negb andb]|]|cbn [nonempty andb]]);
-  (destruct f_het; cbn [nonempty andb]; [rewrite zmem_head; cbn [negb andb]|]); reflexivity.
-Qed.
-
-(* ... and is false as stated for all atoms: from_atom stores the atom's ring_sizes *set*, which __eq__ then subscripts *)
-Theorem from_atom_matches_self_refuted :
-  exists a, match_atom (from_atom a false false false false true) a = Err TypeError.
-Proof. exists (mkLA 6 None 0 false 2 1 (Some 2) 0 [3]). vm_compute. reflexivity. Qed.
-
-(* with the set replaced by the sorted tuple (the suggested fix) the statement holds for every atom *)
-Definition from_atom_fixed (a : latom) (f_nb f_hyb f_het f_h f_rings : bool) : qatom :=
-  match from_atom a f_nb f_hyb f_het f_h f_rings with
-  | QElem n i x => QElem n i (mkQX (x_chg x) (x_rad x) (x_nb x) (x_hyb x) (x_h x) (x_het x) (sort_z (x_rings x)) false)
-  | q => q
-  end.
-
 Lemma insert_z_In x y l : In x (insert_z y l) <-> x = y \/ In x l.
 Proof.
   induction l as [|z l IH]; cbn; [intuition congruence|].
@@ -258,30 +249,55 @@ Qed.
 Lemma insert_z_nonempty y l : insert_z y l <> [].
 Proof. destruct l; cbn; [discriminate|]. destruct (y <=? z); discriminate. Qed.
 
-Theorem from_atom_fixed_matches_self a f_nb f_hyb f_het f_h f_rings :
-  ~ In 0 (la_rings a) ->
-  match_atom (from_atom_fixed a f_nb f_hyb f_het f_h f_rings) a = Ok true.
+(* the ring part of from_atom(ring_sizes=True): tuple(sorted(atom.ring_sizes)) or (0,) *)
+Definition from_rings (rs : list Z) : list Z := match sort_z rs with [] => [0] | l => l end.
+
+Lemma from_rings_step c r nb hyb h het a : ~ In 0 (la_rings a) ->
+  ring_step (mkQX c r nb hyb h het (from_rings (la_rings a)) false) a = Ok true.
 Proof.
-  intros H0. unfold from_atom_fixed, from_atom, match_atom, match_q. cbn [x_chg x_rad x_nb x_hyb x_h x_het x_rings].
+  intros H0. unfold ring_step, from_rings. cbn [x_rings x_rings_set].
+  destruct (sort_z (la_rings a)) as [|r0 rs] eqn:E.
+  - cbn. destruct (la_rings a) as [|y l] eqn:El; [reflexivity|].
+    exfalso. cbn in E. exact (insert_z_nonempty _ _ E).
+  - assert (Hin : In r0 (la_rings a)) by (apply sort_z_In; rewrite E; left; reflexivity).
+    assert (r0 <> 0) by (intros ->; auto).
+    apply Z.eqb_neq in H. rewrite H. cbn [negb]. f_equal. apply negb_true_iff. apply disjoint_false.
+    exists r0. split; [left; reflexivity | exact Hin].
+Qed.
+
+(* a query made from an atom matches that atom, whatever is requested (ring sizes of a real atom are >= 3, so never 0) *)
+Theorem from_atom_matches_self a f_nb f_hyb f_het f_h f_rings :
+  ~ In 0 (la_rings a) ->
+  match_atom (from_atom a f_nb f_hyb f_het f_h f_rings) a = Ok true.
+Proof.
+  intros H0. unfold from_atom, match_atom, match_q. cbn [x_chg x_rad].
   rewrite !Z.eqb_refl, eqb_reflx. cbn [negb].
   assert (I : iso_truthy (la_iso a) && negb (option_eqb Z.eqb (la_iso a) (la_iso a)) = false).
   { apply iso_test. right. right. reflexivity. }
   rewrite I. unfold match_tail. cbn [x_nb x_hyb x_h x_het].
-  assert (R : ring_step (mkQX (la_chg a) (la_rad a) (if f_nb then [la_nb a] else []) (if f_hyb then [la_hyb a] else [])
-                (if f_h then match la_h a with Some h => [h] | None => [] end else []) (if f_het then [la_het a] else [])
-                (sort_z (if f_rings then la_rings a else [])) false) a = Ok true).
-  { unfold ring_step. cbn [x_rings x_rings_set].
-    destruct (sort_z (if f_rings then la_rings a else [])) as [|r0 r] eqn:E; [reflexivity|].
-    assert (Hin : In r0 (if f_rings then la_rings a else [])) by (apply sort_z_In; rewrite E; left; reflexivity).
-    destruct f_rings; [|destruct Hin].
-    assert (r0 <> 0) by (intros ->; auto).
-    apply Z.eqb_neq in H. rewrite H. cbn [negb]. f_equal. apply negb_true_iff. apply disjoint_false.
-    exists r0. split; [rewrite <- E; apply sort_z_In; exact Hin | exact Hin]. }
+  match goal with |- context [ring_step ?q a] => assert (R : ring_step q a = Ok true) end.
+  { destruct f_rings; [apply (from_rings_step _ _ _ _ _ _ a H0) | reflexivity]. }
   rewrite R.
   destruct f_nb; cbn [nonempty andb]; [rewrite zmem_head; cbn [negb andb]|];
   (destruct f_hyb; cbn [nonempty andb]; [rewrite zmem_head; cbn [negb andb]|]);
   (destruct f_h; [destruct (la_h a) as [h|]; cbn [nonempty andb opt_mem]; [rewrite zmem_head; cbn [negb andb]|]|cbn [nonempty andb]]);
   (destruct f_het; cbn [nonempty andb]; [rewrite zmem_head; cbn [negb andb]|]); reflexivity.
+Qed.
+
+(* and the ring part has the documented meaning: a non-ring atom gives the "not in ring" mark, a ring atom its sizes *)
+Theorem from_atom_rings_spec a f_nb f_hyb f_het f_h :
+  match from_atom a f_nb f_hyb f_het f_h true with
+  | QElem _ _ x => x_rings_set x = false /\
+                   (la_rings a = [] -> x_rings x = [0]) /\
+                   (la_rings a <> [] -> forall r, In r (x_rings x) <-> In r (la_rings a))
+  | _ => False
+  end.
+Proof.
+  unfold from_atom. cbn [x_rings x_rings_set]. split; [reflexivity|]. split.
+  - intros ->. reflexivity.
+  - intros Hne r. destruct (sort_z (la_rings a)) as [|r0 rs] eqn:E.
+    + destruct (la_rings a) as [|y l]; [congruence|]. cbn in E. exfalso. exact (insert_z_nonempty _ _ E).
+    + rewrite <- E. apply sort_z_In.
 Qed.
 
 (* ------------------------------------------------------------------------------------------------------------ *)
